@@ -19,5 +19,21 @@ CLAIMED = {
    text="Proof level for the reconnect discipline: invariants 'a pending connection attempt is an UNFIRED Deferred' and 'unanswered requests imply a connection or an attempt in progress' are preserved by every entry point of _KafkaBrokerClient (makeRequest, _connectionLost, cbConnect, ebConnect, cbDelayed, close ...); _connectionLost leaves no tombstone and marks survivors unsent; _sendQueued sends only entries still in the table with sent None.",
    note="Order of re-sending (table order) follows from iterating the ordered table and is not separately proved; backoff values are the retry policy's (external). Trusted: Twisted contracts, pyvc.",
    ref='DESIGN.md section 8 C10, section 12'),
+ 'C14': dict(
+   text="Proof level for the consumer's retry/reset/growth arithmetic: _retry_fetch schedules exactly one timer with the current delay and multiplies the delay by 1.20205 capped at the maximum; the offset and fetch success handlers reset delay and attempt count before the next fetch; the error handlers errback start() only at the attempt limit or for an out-of-range offset without policy, retry otherwise, and set the fetch offset to the reset policy; _handle_fetch_response fails only when the buffer already is at its maximum and never moves the fetch offset when nothing was extracted.",
+   note="Floats are treated as reals (no rounding); the geometric closed form min(init*f^k, max) is the k-fold composition of the proved one-step rule (not separately proved). Trusted: Twisted/reactor contracts, pyvc.",
+   ref='DESIGN.md section 8 C14, section 12'),
+ 'C02': dict(
+   text="Proof level for the delivery bookkeeping of Consumer._handle_fetch_response (every appended message has an offset >= the fetch offset and > the previous appended one, is stamped with the consumer's own topic/partition; the fetch offset afterwards is last delivered + 1; a reply is parked while a block is being processed), for one-request-at-a-time in _do_fetch/_retry_fetch, and for _process_messages invoking the processor only in the running state. End-to-end 'every message of the log' additionally rests on the broker returning the log contiguously and on the codec contract (C05).",
+   note="The strictly-increasing property of the whole delivered sequence is the induction over the proved per-append clause. Consumer.stop() is covered by the bounded scenario stand-in only. Trusted: Twisted contracts, pyvc heap/re-entrancy encoding.",
+   ref='DESIGN.md section 8 C02, section 12'),
+ 'C03': dict(
+   text="Proof level for the commit bookkeeping units: _update_processed_offset records exactly the offset of the block that succeeded, _process_messages never invokes the processor after a failure was reported, _send_commit_request sends exactly one request carrying the last processed offset with the configured generation and member id and refuses (OperationInProgress) while one is outstanding, _update_committed_offset records the acknowledged offset only, _handle_offset_response resumes at committed+1.",
+   note="The chain order processor-result -> _update_processed_offset is Twisted's callback order (trusted). commit()/auto-commit retry chains and crash points are covered by the bounded scenario stand-in, not by proof.",
+   ref='DESIGN.md section 8 C03, section 12'),
+ 'C13': dict(
+   text="Proof level for: the processor is only invoked while the consumer is running (not stopping, start Deferred unfired) and not shutting down; start() refuses a second start; every entry point guarantees that it does not end the run or clear the stopping flag while stop() is in progress (the rely clause stop()'s re-entrancy safety rests on). stop()/shutdown() themselves are checked by the bounded scenario stand-in (labelled, not proof).",
+   note="Consumer.stop() was not brought within the symbolic executor's reach (500+ paths); see evidence bounded_units.",
+   ref='DESIGN.md section 8 C13, section 12'),
 }
 NOT_APPLICABLE = {}
